@@ -228,6 +228,12 @@ func buildXcase(o *output, stream string, cl resolve.Client, vm localMatcher, m0
 	relaxAns := map[pr]relObs{}
 	for k := range relaxKeys {
 		rq := resolve.RequirementVersion{VersionKey: resolve.VersionKey{PackageKey: resolve.PackageKey{System: resolve.NPM, Name: k.p}, VersionType: resolve.Requirement, Version: k.r}}
+		for _, mr := range base.Requirements() { // the dependency type (alias, dev, ...) the manifest has for it
+			if mr.Name == k.p {
+				rq.Type = mr.Type.Clone()
+				break
+			}
+		}
 		var got resolve.RequirementVersion
 		var ok bool
 		if oc, _ := guarded(callLimit, func() { got, ok = guidedremediation.VerifC11NpmRelax(ctx, cl, rq, cfg) }); oc == callOK && ok {
